@@ -627,7 +627,10 @@ func (r *Resolver) groupLookup(ctx context.Context, rs *resolveState, req *dns.M
 		})
 
 		if lookupErr != nil {
-			if shared && !leader && middleware.IsRequestLocalResolutionError(lookupErr) {
+			// A shed leader speaks for the whole cohort: the ceiling that
+			// refused it would refuse each regrouped follower too.
+			if shared && !leader && middleware.IsRequestLocalResolutionError(lookupErr) &&
+				!errors.Is(lookupErr, middleware.ErrLocalLoadShed) {
 				if ctxErr := contextutil.EffectiveError(ctx); ctxErr != nil {
 					return nil, ctxErr
 				}
